@@ -256,6 +256,7 @@ class Session:
         self.oracle = {}
         self.awaiting = {}        # cid -> description of the unanswered request
         self.last_msg = {}        # cid -> the last message event fed on that connection
+        self.sent_actions = {}    # cid -> the executed game actions of the running episode as they were sent (None: no longer tracked)
         self.pending_leave = {}   # cid -> kind (eof / readerr noticed only after the reply)
         self.next_cid = 0
         self.alive = set()
@@ -842,6 +843,7 @@ class Session:
                               f"(rewards {[x[0] for x in sent]}; views equal: {o['traj']['states'][1:] == [x[1] for x in sent]})", self.replay())
             if o["code"] == "CREATED" or o["code"] == "RESET_DONE":
                 self.sent_log[c] = []
+                self.sent_actions[c] = []
                 self.sent_lost[c] = False
                 self.init_view[c] = o["obs"]["view"]
                 self.episode[c] = self.episode.get(c, 0) + 1
@@ -862,8 +864,22 @@ class Session:
                         S["recorded_action_checked"] = S.get("recorded_action_checked", 0) + 1
                         self.fail({"C16"}, "recorded-action-not-sent:" + str(sent.type).split(".")[-1],
                                   f"connection {c} sent {str(sent)[:200]} and got OK, but the action recorded in its trajectory is {str(recorded)[:200]}", self.replay())
+                        self.sent_actions[c] = None
                     elif sent is not None:
                         S["recorded_action_checked"] = S.get("recorded_action_checked", 0) + 1
+                        # ... and the records of the EARLIER actions of the episode are still what was sent then
+                        log = self.sent_actions.get(c)
+                        if log is not None and recorded is not None:
+                            log.append(sent)
+                            try:
+                                now = [Action.from_dict(a) for a in acts]
+                            except Exception as e:
+                                now = repr(e)
+                            if now != log and len(acts) == len(log):
+                                bad = next((i for i, (x, y) in enumerate(zip(now, log)) if x != y), None) if isinstance(now, list) else None
+                                self.fail({"C16"}, "recorded-actions-changed-later", f"after {len(log)} executed actions of connection {c} the recorded action #{bad} is "
+                                          f"{str(now[bad])[:160] if bad is not None else now} but {str(log[bad])[:160] if bad is not None else 'a decodable action'} was sent and recorded at the time", self.replay())
+                                self.sent_actions[c] = None
                 if o["obs"]["end"]:
                     k = (c, self.episode.get(c, 0))
                     self.bonus_seen[k] = self.bonus_seen.get(k, 0) + 1
